@@ -165,7 +165,8 @@ def gen_cases(tier, seed):
             T = rng.choice([3, 4, 4, 5]) if tier == "quick" else rng.choice([4, 5, 6, 7])
             if kind == "ds":
                 cfg, shapes = gen_ds(rng, variant, tier)
-                x64 = rng.random() < 0.3
+                # (frequent_directions under jax_enable_x64 fails a lax.cond dtype check inside the package: C07's subject)
+                x64 = rng.random() < 0.3 and variant in ("full", "quant_repl", "sharded", "quant_pmap")
             elif kind == "sm3":
                 cfg = {"beta1": rng.choice([0.9, 0.0]), "beta2": rng.choice([0.999, 1.0, 0.9]),
                        "weight_decay": rng.choice([0.0, 0.01]), "normalize_grads": rng.random() < 0.3}
@@ -212,8 +213,10 @@ def corpus_cases():
 
 # ============================================================================ worker side: the real optimizers
 def _setup(x64):
+    import logging
     import warnings
     warnings.filterwarnings("ignore")
+    logging.disable(logging.CRITICAL)
     import jax
     jax.config.update("jax_enable_x64", bool(x64))
 
@@ -228,7 +231,7 @@ def build_params(case):
     import numpy as np
     import jax.numpy as jnp
     rs = np.random.RandomState(case["gseed"] % (2 ** 31))
-    arrs = [jnp.asarray(rs.uniform(-1, 1, size=tuple(s)).astype(np.float32)) for s in case["shapes"]]
+    arrs = [jnp.asarray(np.asarray(rs.uniform(-1, 1, size=tuple(s)), np.float32)) for s in case["shapes"]]
     kind = case.get("tree", "dict")
     if kind == "list":
         return list(arrs)
@@ -244,7 +247,7 @@ def grads_for(case, params, t):
     leaves, td = jax.tree_util.tree_flatten(params)
     rs = np.random.RandomState((case["gseed"] * 1009 + t * 7919 + 13) % (2 ** 31))
     sc = case["scales"][t]
-    return td.unflatten([jnp.asarray((rs.randn(*l.shape) * sc).astype(np.float32)) for l in leaves])
+    return td.unflatten([jnp.asarray(np.asarray(rs.randn(*l.shape) * sc, np.float32)) for l in leaves])
 
 
 def _make_optimizer(case):
@@ -798,12 +801,18 @@ def run_case(task):
     T = case["T"]
     refs = {}
     try:
+        rej = {}
         for m in modes_of(case):
             try:
                 refs[m] = run_uninterrupted(case, m)
             except Exception as e:  # noqa: BLE001
-                out["rejected"] = {"mode": m, "error": _exc(e), "cls": type(e).__name__}
-                return out
+                rej[m] = {"mode": m, "error": _exc(e), "cls": type(e).__name__}
+        if not refs:
+            out["rejected"] = next(iter(rej.values()))
+            return out
+        for m, r in rej.items():   # runs in one mode but not in another: the surviving modes are still checked
+            out["notes"].append(f"uninterrupted run raised in mode {m} only: {r['error']}")
+            out["mode_rejected"] = out.get("mode_rejected", []) + [m]
         # ---- resume at every k, in-process, fresh optimizer object
         for m, ref in refs.items():
             for k in range(T + 1):
@@ -948,6 +957,8 @@ def execute(ctx, cases, no_child=False):
                              "the bitwise oracle decides whether that matters")
         for n in r["notes"]:
             ctx.notes.append(f"{label}: {n}")
+        for m in r.get("mode_rejected", []):
+            ctx.dist(f"mode_not_runnable.{m}.{label}")
         seen = set()
         for f in r["fails"]:
             key = (f["what"], f["mode"], f["where"])
@@ -982,6 +993,11 @@ def run(ctx):
     ctx.lean_stage()
     check_constants(ctx)
     cases = corpus_cases() + gen_cases(ctx.tier, ctx.seed)
+    only = os.environ.get("VERIF_C14_ONLY")   # development aid (mutation self-tests): e.g. "sm3,tf.SKETCHY"
+    if only:
+        keep = set(only.split(","))
+        cases = [c for c in cases if c["kind"] in keep or f"{c['kind']}.{c['variant']}" in keep]
+        ctx.notes.append(f"VERIF_C14_ONLY={only}: restricted run, not a full check")
     ctx.cov["rule"] = (
         "one evaluation = one (configuration, history, interruption point k, execution mode, fresh object | fresh process) resume "
         "compared bitwise with the uninterrupted run, or one input-purity probe; non-trivial = k >= 1 and the serialized state "
